@@ -1,5 +1,6 @@
 import TsVerif.Common.IO
 import TsVerif.C02.Judge
+import TsVerif.C02.Balance
 import Std.Data.HashMap
 /-!
 Driver for C02: reads language tables (`deflang … enddeflang`) and cases (text, full internal
@@ -20,7 +21,9 @@ structure St where
   api : Array ApiNode := #[]
   notree : String := ""
   calls : String := ""
-  mode : Nat := 0   -- 0 none, 1 deflang, 2 tree dump, 3 api
+  mode : Nat := 0   -- 0 none, 1 deflang, 2 tree dump, 3 api, 4 tree dump before balancing
+  before : Array String := #[]
+  balmode : List String := []
 
 def runCase (s : St) : String :=
   if s.notree != "" then
@@ -33,6 +36,34 @@ def runCase (s : St) : String :=
       s!"{s.id} corr={r.corr.render} inv={if r.inv then "ok" else "BAD"} judge={r.judge.render} raw={js.rawNodes} vis={js.vnodes.size} inner={r.corrStats.inner} hiddenvis={js.hiddenWithVisible} alias={js.aliases} extra={js.extras} err={js.errors} missing={js.missing} multiline={js.multiline} zerowidth={js.zeroWidth} leaves={js.leaves} literals={js.literals} bytes={s.text.size} kind={s.kind}"
     | _, _ => s!"{s.id} corr=BADINPUT inv=ok judge=BADINPUT"
 
+/-- A rebalancing case: the REAL `ts_subtree_compress` / `ts_parser__balance_subtree` ran on the tree
+dumped as `before` and left the tree dumped as `dump`.  corr: the port applied to `before` gives
+exactly `dump` (every field of every node, addresses included).  judge (on the real result): same
+leaves in the same order, `Sized`-style summaries of every inner node (corrTree), root extent kept. -/
+def runBalance (s : St) : String :=
+  match s.langs.get? s.lang, parseDump s.before.toList, parseDump s.dump.toList with
+  | some lang, some b, some a =>
+    let fuel := b.root.size + 1
+    let (port, what) := match s.balmode with
+      | ["compress", c] => (compress lang c.toNat! b.root, s!"compress {c}")
+      | _ => (balance lang fuel b.root, "balance")
+    let corr := match treeDiff a.root port [] with
+      | none => "ok"
+      | some e => s!"FAIL corr:{what.takeWhile (· != ' ')} :: corr:{what.takeWhile (· != ' ')}: real result vs port ({what}): {e}"
+    let lb := leaves b.root
+    let la := leaves a.root
+    let cs := corrTree lang a.root [] {}
+    let fails : List (String × String) :=
+      (if leafDataEq la lb then [] else [("balance:leaves", s!"{la.length} leaves after, {lb.length} before, or their data differ")]) ++
+      (if decide (a.root.data.padding = b.root.data.padding) && decide (a.root.data.size = b.root.data.size) then []
+       else [("balance:root-extent", s!"padding/size {a.root.data.padding.bytes}/{a.root.data.size.bytes}, before {b.root.data.padding.bytes}/{b.root.data.size.bytes}")]) ++
+      (if cs.fails.render == "ok" then [] else [("balance:summaries", cs.fails.render)])
+    let judge := if fails.isEmpty then "ok" else
+      "FAIL " ++ "|".intercalate (fails.map (·.1)) ++ " :: " ++ " ; ".intercalate (fails.map fun (k, v) => k ++ ": " ++ v)
+    let changed := if (treeDiff a.root b.root []).isSome then 1 else 0
+    s!"{s.id} corr={corr} inv=ok judge={judge} raw={b.root.size} vis=0 inner={cs.inner} leaves={la.length} changed={changed} balcase=1 bytes=0 kind={s.kind}"
+  | _, _, _ => s!"{s.id} corr=BADINPUT inv=ok judge=BADINPUT"
+
 def step (s : St) (line : String) : IO St := do
   if s.mode == 1 then
     if line == "enddeflang" then
@@ -40,6 +71,8 @@ def step (s : St) (line : String) : IO St := do
     else return { s with defLang := s.defLang.addLine line }
   if s.mode == 2 then
     if line == "end" then return { s with mode := 0 } else return { s with dump := s.dump.push line }
+  if s.mode == 4 then
+    if line == "end" then return { s with mode := 0 } else return { s with before := s.before.push line }
   if s.mode == 3 then
     if line == "endapi" then return { s with mode := 0 }
     else match parseApiLine line with
@@ -54,6 +87,9 @@ def step (s : St) (line : String) : IO St := do
   | ["text", h] => return { s with text := (unhexBytes h).toArray }
   | ["text"] => return { s with text := #[] }
   | "tree" :: _ => return { s with mode := 2, dump := #[] }
+  | "btree" :: _ => return { s with mode := 4, before := #[] }
+  | "balmode" :: rest => return { s with balmode := rest }
+  | ["runbal"] => IO.println (runBalance s); return s
   | "api" :: _ => return { s with mode := 3, api := #[] }
   | ["notree", why] => return { s with notree := why }
   | ["run"] => IO.println (runCase s); return s
